@@ -225,6 +225,41 @@ func makeBoxes(tier string) []*Box {
 		Cfg: plag4, Bud: Budget{MaxTerm: 3, Proposals: 2, Crashes: 2, ConfChanges: 1, Plags: 1, Persists: 2},
 		Depth: 400, MaxDev: 0, Kinds: plagKinds, Devs: kinds(evDrop),
 		LeaderPropose: true, LagAt: 4, CampaignBy: map[uint64][]int{0: {}, 1: {1}, 2: {3}}, CrashAt: []int{2, 3}, ConfVariants: []uint16{ccAddLearner}, Restrictions: plagRestr, CollectAll: true, Share: pick(10, 20)})
+	if thorough {
+		// B12b: the restrictions on who crashes and who wins term 3 are dropped (the old leader or
+		// the learner itself may crash: a crash of the learner while it holds a Ready loses the
+		// Ready, a crash after the release restarts it from exactly what the release wrote), a
+		// third persist. B12c: B12 plus one deviation: loss of any in-flight message, or persist(4)
+		// / plag(4) / crash(2|3) while messages are in flight (the release happens before, between
+		// or after the messages of the new leader). B12d: any of three voters (the leader included)
+		// is the slow one; no membership change; one deviation (a leader holds Readys whose
+		// Messages carry entries of its unstable log; a candidate holds its vote requests; a
+		// follower holds its vote / its acknowledgements). B12e: persist lag with log compaction and
+		// snapshot transfer: a node accepts a MsgSnap, holds the Ready that carries the snapshot
+		// and keeps stepping messages before anything is installed.
+		add(&Box{ID: "B12b", Mode: "B", What: "as B12 without the restrictions on crashes and on the second election: any node may crash (the learner while it holds an unpersisted Ready, or right after a release; the old leader), term 3 is won by node 2 or 3, three persists",
+			Cfg: plag4, Bud: Budget{MaxTerm: 3, Proposals: 2, Crashes: 2, ConfChanges: 1, Plags: 1, Persists: 3},
+			Depth: 400, MaxDev: 0, Kinds: plagKinds, Devs: kinds(evDrop),
+			LeaderPropose: true, LagAt: 4, CampaignBy: map[uint64][]int{0: {}, 1: {1}, 2: {2, 3}}, ConfVariants: []uint16{ccAddLearner}, CollectAll: true,
+			Restrictions: []string{"only node 4 (the learner) enters persist-lag mode", "first election (term 2) by node 1 only, second election (term 3) by nodes 2 and 3 only",
+				"proposals and the conf change at the leader only", "conf change: addLearnerV2(4)", "no deviations (FIFO delivery, driver events at quiescent points)"}, Share: 130})
+		add(&Box{ID: "B12c", Mode: "B", What: "as B12 with one deviation: loss of any in-flight message, or persist(4) / plag(4) / crash(2|3) while messages are in flight (the release before, between or after the messages of the later-term leader)",
+			Cfg: plag4, Bud: Budget{MaxTerm: 3, Proposals: 2, Drops: 1, Crashes: 2, ConfChanges: 1, Plags: 1, Persists: 2},
+			Depth: 400, MaxDev: 1, Kinds: plagKinds, Devs: kinds(evDrop, evPersist, evPLag, evCrash),
+			LeaderPropose: true, LagAt: 4, CampaignBy: map[uint64][]int{0: {}, 1: {1}, 2: {3}}, CrashAt: []int{2, 3}, ConfVariants: []uint16{ccAddLearner}, CollectAll: true,
+			Restrictions: append(append([]string(nil), plagRestr[:5]...), "deviations: loss of any in-flight message, persist(4) / plag(4) / crash(2|3) while messages are in flight"), Share: 160})
+		add(&Box{ID: "B12d", Mode: "B", What: "persist lag on any of three voters, the leader included (a leader holds Readys whose Messages carry entries of its unstable log, a candidate its vote requests, a follower its vote and acknowledgements), two elections, crash and restart; one deviation",
+			Cfg: all3, Bud: Budget{MaxTerm: 3, Proposals: 2, Drops: 1, Crashes: 1, Plags: 1, Persists: 3},
+			Depth: 400, MaxDev: 1, Kinds: kinds(evCampaign, evPropose, evCrash, evRestart, evPLag, evPersist, evUnplag), Devs: kinds(evDrop, evPersist, evPLag),
+			LeaderPropose: true, CampaignBy: map[uint64][]int{0: {}, 1: {1}}, CollectAll: true,
+			Restrictions: []string{"first election (term 2) by node 1 only, second election by any node", "proposals at the leader only",
+				"deviations: loss of any in-flight message, persist(n) / plag(n) while messages are in flight"}, Share: 130})
+		add(&Box{ID: "B12e", Mode: "B", What: "persist lag with log compaction and snapshot transfer: a node accepts a MsgSnap and holds the Ready that carries the snapshot (nothing installed) while it keeps stepping messages; compaction on a node in persist-lag mode; crash while such a Ready is held",
+			Cfg: all3, Bud: Budget{MaxTerm: 2, Proposals: 1, Drops: 1, Crashes: 1, Heartbeats: 1, Compacts: 1, Plags: 1, Persists: 3},
+			Depth: 400, MaxDev: 1, Kinds: kinds(evCampaign, evPropose, evHeartbeat, evCrash, evRestart, evCompact, evPLag, evPersist, evUnplag), Devs: kinds(evDrop, evPersist, evPLag),
+			LeaderPropose: true, CampaignAt: 1, CollectAll: true,
+			Restrictions: []string{"one election, by node 1", "proposals at the leader only", "deviations: loss of any in-flight message, persist(n) / plag(n) while messages are in flight"}, Share: 50})
+	}
 	add(&Box{ID: "B4", Mode: "B", What: "membership changes: add node 4 as voter or as learner then promote, remove node 3 (also while it leads), joint consensus with automatic and explicit leave; two changes per run",
 		Cfg: cfgPlain(3, true), Bud: Budget{MaxTerm: 3, Drops: 9, Dups: 9, ConfChanges: 2},
 		Depth: 400, MaxDev: pick(1, 2), Kinds: kinds(evCampaign, evConf), Share: pick(10, 95)})
